@@ -574,10 +574,35 @@ func (r *run) checkCacheInSync(when string) {
 		c := doc[n]
 		if c == nil || c.Secret == nil {
 			r.fail("C13", "cache-missing", "%s: the cache lacks %q, which the store serves at v%d", when, n, g.Version)
+			// the same observation under the other statements that speak about the cache
+			r.fail("C19", "dropped-from-cache", "%s: %q is in the store (v%d) but gone from the cache, although nothing allowed dropping it", when, n, g.Version)
+			if r.lookedUp(n) {
+				r.fail("C16", "lookup-not-cached", "%s: %q was looked up and installed (v%d) but is not in the cache", when, n, g.Version)
+			}
 		} else if c.Secret.Version != g.Version || string(c.Secret.Value) != g.Value {
 			r.fail("C13", "cache-stale", "%s: the cache holds %q at v%d while the store serves v%d (a restart with the service unreachable would serve the old value)", when, n, c.Secret.Version, g.Version)
+			if r.lookedUp(n) {
+				r.fail("C16", "lookup-not-cached", "%s: %q was looked up; the cache holds v%d while the store serves v%d", when, n, c.Secret.Version, g.Version)
+			}
 		}
 	}
+}
+
+// lookedUp reports whether the scenario obtains name through a lookup (LookupSecret / NewUpdater on an undeclared name).
+func (r *run) lookedUp(name string) bool {
+	for _, d := range r.sc.Declared {
+		if d == name {
+			return false
+		}
+	}
+	for _, acts := range r.sc.Threads {
+		for _, a := range acts {
+			if a == "lookup:"+name || a == "upd:"+name {
+				return true
+			}
+		}
+	}
+	return false
 }
 
 // checkConverged: after a clean poll every name in the store is at the service's active version, and so is the cache.
@@ -606,8 +631,16 @@ func (r *run) checkConverged() {
 			c := doc[n]
 			if c == nil || c.Secret == nil {
 				r.fail("C13", "cache-missing", "after a clean poll the cache lacks %q", n)
+				r.fail("C11", "cache-differs-after-poll", "after a clean poll the cache lacks %q, which the store serves at v%d", n, g.Version)
+				if r.lookedUp(n) {
+					r.fail("C16", "lookup-not-cached", "after a clean poll the cache lacks the looked-up %q", n)
+				}
 			} else if c.Secret.Version != g.Version || string(c.Secret.Value) != g.Value {
 				r.fail("C13", "cache-stale", "after a clean poll the cache holds %q v%d, the store v%d", n, c.Secret.Version, g.Version)
+				r.fail("C11", "cache-differs-after-poll", "after a clean poll the cache holds %q v%d, the store v%d", n, c.Secret.Version, g.Version)
+				if r.lookedUp(n) {
+					r.fail("C16", "lookup-not-cached", "after a clean poll the cache holds the looked-up %q at v%d, the store v%d", n, c.Secret.Version, g.Version)
+				}
 			}
 		}
 	}
